@@ -5,9 +5,12 @@ import (
 	"net/http"
 	"os"
 	"path/filepath"
+	"reflect"
 	"runtime"
 	"sync"
+	"sync/atomic"
 	"time"
+	"unsafe"
 
 	"github.com/superfly/litefs"
 	lfuse "github.com/superfly/litefs/fuse"
@@ -182,6 +185,19 @@ func (n *Node) Close() error {
 		return nil
 	}
 	n.Up = false
+	if n.Exited {
+		// The process is gone: nothing of it runs any more. Store.Close would
+		// still try to release remote halt locks, which needs the write lock
+		// that the handler aborted by Exit() never gave back (an artefact of
+		// modelling exit as unwinding) and has no deadline. Forget them.
+		for _, db := range n.Store.DBs() {
+			if db.HasRemoteHaltLock() {
+				f := reflect.ValueOf(db).Elem().FieldByName("remoteHaltLock")
+				av := (*atomic.Value)(unsafe.Pointer(f.UnsafeAddr()))
+				av.Store((*litefs.HaltLock)(nil))
+			}
+		}
+	}
 	err := n.Store.Close()
 	if n.K != nil {
 		n.K.Detach()
